@@ -23,7 +23,7 @@ SUBS = [
     dict(name="aes", quick=dict(cases=40, shards=1), thorough=dict(cases=1200, shards=2)),
     dict(name="http", quick=dict(cases=12, shards=2), thorough=dict(cases=24, shards=2)),
 ]
-WRAPS = ["poll", "recv", "send", "connect", "accept", "getsockopt", "setsockopt", "socket", "close", "bind", "fcntl",
+WRAPS = ["poll", "recv", "send", "connect", "accept", "getsockopt", "setsockopt", "socket", "close", "bind", "fcntl", "shutdown",
          "malloc", "calloc", "realloc", "free"]
 
 
